@@ -33,7 +33,7 @@ function check (job, resp, prefix) {
 module.exports = {
   id: 'C04',
   level: 'translation_validation',
-  rule: 'policy model required(inputAST, config) (written from the property text) marks every node that must be hooked; the erased+aligned output (see C02) must carry a hook annotation with the configured name on each of them. Workload: corpus files, catalogue placements x forms, random programs, under rotating configurations. distinct_nontrivial = distinct (input, config) with >= 1 required operation located. Workload additions: corpus files with enabled operations spliced onto randomly chosen expression nodes (25 wrappers x every expression slot; only texts V8 still compiles), the syntax zoo with LF/CRLF/CR line endings, a CRLF slice of the corpus. Package layer: call histories through the real main.js (shared CacheRewriter / NonCacheRewriter instances, same paths asked again with other texts - also one-character edits of equal length): every content handed out must carry the hook sites the same call gets on a freshly loaded package.',
+  rule: 'policy model required(inputAST, config) (written from the property text) marks every node that must be hooked; the erased+aligned output (see C02) must carry a hook annotation with the configured name on each of them. Workload: corpus files, catalogue placements x forms, random programs, under rotating configurations. distinct_nontrivial = distinct (input, config) with >= 1 required operation located. Workload additions: corpus files with enabled operations spliced onto randomly chosen expression nodes (25 wrappers x every expression slot; only texts V8 still compiles), the syntax zoo with LF/CRLF/CR line endings, a CRLF slice of the corpus. Package layer: call histories through the real main.js (shared CacheRewriter / NonCacheRewriter instances, same paths asked again with other texts - also one-character edits of equal length): every content handed out must carry the hook sites of the native rewriter\'s own answer to (configuration, text, file name).',
   assumptions: [
     'the policy demands only what the statement states: literal-only sums, literal this-arguments of prototype calls, apply() without an argument list, spread this-arguments, bare calls, expression-bodied arrows outside any block and receivers outside the whitelist are not demanded',
     'files whose erased output does not align with the input (a C02 violation) are inconclusive for C04 and counted',
@@ -42,7 +42,7 @@ module.exports = {
   plan (ctx) {
     const shards = plan(ctx, { quickCorpus: 320, exec: { quickRandom: 2500, quickFormsPerPlacement: 10, thoroughRandom: 30000 } })
     // the instrumentation as the package API hands it out: over call histories through the real main.js every content must carry
-    // the hook sites that the same call gets on a freshly loaded package (the policy-checked single-call instrumentation)
+    // the hook sites of the native rewriter's own answer to the same (configuration, text, file name) - the policy-checked instrumentation
     for (let k = 0, n = ctx.tier === 'thorough' ? 96 : 10; k < n; k++) shards.push({ kind: 'package', stream: 6000 + k, histories: 3 })
     return shards
   },
@@ -63,15 +63,17 @@ module.exports = {
         const shape = hist.calls.map(c => `${c.kind}@${c.file.split('/').slice(-3).join('/')}`)
         const seen = new Set()
         for (const c of hist.calls) {
-          const want = sitesOf(c.fresh); const got = sitesOf(c.response)
-          if (want === null) continue // the call fails (or is unparsable) on a fresh package too: nothing is demanded
+          // reference: the native rewriter's own answer to (config, code, file) - no package code in between (a fresh package
+          // instance would share a defect that does not depend on the history)
+          const want = c.native && c.native.metrics && c.native.metrics.status === 'notmodified' ? '' : sitesOf(c.native); const got = c.response && c.response.metrics && c.response.metrics.status === 'notmodified' && c.response.content === c.code ? (sitesOf({ content: c.code }) || '') : sitesOf(c.response)
+          if (want === null) continue // the native call fails (or is unparsable): nothing is demanded
           rep.evaluations++; bump('package_calls')
           rep.distinct.push(hashStr(spec.stream + ':' + h + ':' + c.step))
           if (got !== want) {
             const sig = `package:missed:${c.kind}`
             if (seen.has(sig)) continue
             seen.add(sig)
-            rep.violations.push({ sig, what: `through main.js (${c.rewriter}, config ${c.cfgName}): call #${c.step} of history [${shape.join(', ')}] for ${c.file}: the content handed out has the hook sites [${got}], the same call on a freshly loaded package instruments [${want}]`, witness: { packageHistory: hist.calls.map(x => ({ kind: x.kind, file: x.file, code: x.code, cfgName: x.cfgName, rewriter: x.rewriter })), step: c.step } })
+            rep.violations.push({ sig, what: `through main.js (${c.rewriter}, config ${c.cfgName}): call #${c.step} of history [${shape.join(', ')}] for ${c.file}: the content handed out has the hook sites [${got}], the native rewriter called directly instruments [${want}]`, witness: { packageHistory: hist.calls.map(x => ({ kind: x.kind, file: x.file, code: x.code, cfgName: x.cfgName, rewriter: x.rewriter })), step: c.step } })
           }
         }
         if (rep.samples.length < 1) rep.samples.push({ package_history: shape })
